@@ -56,8 +56,8 @@ CPU_BASE_S = 1.5
 CPU_PER_CHAR_S = 0.0005
 ENUM_MAX_LEN = 8192
 ENUM_SLICES = 64
-FLIP_ALPHABET = "(){}[]<>%^#!@:,=-+*?|\"0x9.e\\ \n\t\x00é中²١\x0b\x0c'/~`"
-FAULT_KINDS = ("eof", "drop", "flip", "dup", "swap", "torn", "splice", "crlf", "bom", "utf8cut", "insert", "stutter")
+FLIP_ALPHABET = "(){}[]<>%^#!@:,=-+*?|\"0x9.e\\ \n\t\x00é中²١\x0b\x0c'/~`\u00a0\u2028\u3000\u0085\x1c\x1f\u200b\ufeff\r"
+FAULT_KINDS = ("eof", "drop", "flip", "dup", "swap", "torn", "splice", "crlf", "bom", "utf8cut", "insert", "stutter", "tokrepl", "tokdel", "tokdup")
 
 
 class StepBudgetExceeded(BaseException):
@@ -134,6 +134,7 @@ class Corpus:
         self.w1 = [g for _, _, g, _ in items]
         self.w2 = [o for _, _, _, o in items]
         self._tokens: dict[tuple[int, int], list[tuple[int, int, str]]] = {}
+        self._by_kind: dict[tuple[int, int], list[list[int]]] = {}
 
     def text(self, wl: int, i: int) -> str:
         return (self.w1 if wl == 0 else self.w2)[i]
@@ -154,11 +155,31 @@ class Corpus:
                     tok = lx.lex()
                     if tok.kind == MLIRTokenKind.EOF:
                         break
-                    t.append((tok.span.start, tok.span.end, tok.kind.name))
+                    kind = tok.kind.name
+                    if kind == "INTEGER_LIT" and tok.span.text[:2] in ("0x", "0X"):
+                        kind = "HEX_INTEGER_LIT"
+                    elif kind == "FLOAT_LIT" and ("e" in tok.span.text or "E" in tok.span.text):
+                        kind = "EXP_FLOAT_LIT"
+                    elif kind == "STRING_LIT" and "\\" in tok.span.text:
+                        kind = "ESCAPED_STRING_LIT"
+                    t.append((tok.span.start, tok.span.end, kind))
             except BaseException:  # noqa: BLE001
                 pass
             self._tokens[key] = t
         return t
+
+    def by_kind(self, wl: int, i: int) -> list[list[int]]:
+        """Token indices grouped by (sub-)kind, kinds in sorted order: positions are
+        drawn kind-first so that rare token kinds are hit as often as common ones."""
+        key = (wl, i)
+        g = self._by_kind.get(key)
+        if g is None:
+            d: dict[str, list[int]] = {}
+            for j, (_, _, k) in enumerate(self.tokens(wl, i)):
+                d.setdefault(k, []).append(j)
+            g = [d[k] for k in sorted(d)]
+            self._by_kind[key] = g
+        return g
 
 
 def build_corpus(workers: int = 8) -> Corpus:
@@ -307,53 +328,68 @@ class Judge:
 # ---------------------------------------------------------------------------
 
 
-def _pos(s: Stream, text: str, toks: list[tuple[int, int, str]], allow_end: bool = True) -> int:
-    """A position in text, biased to the inside of tokens."""
+def _pos(s: Stream, text: str, toks: list[tuple[int, int, str]], allow_end: bool = True, groups: list[list[int]] | None = None) -> int:
+    """A position in text, biased to the inside of tokens: the token kind is drawn
+    first (rare kinds are hit as often as common ones), then a token of that kind, then
+    an offset that prefers the first and last few characters of the token."""
     n = len(text) + (1 if allow_end else 0)
     if n <= 0:
         return 0
 
     def gen(r: Any) -> int:
-        if toks and r.randrange(4):
-            a, b, _ = toks[r.randrange(len(toks))]
+        if toks and r.randrange(5):
+            if groups and r.randrange(3):
+                g = groups[r.randrange(len(groups))]
+                a, b, _ = toks[g[r.randrange(len(g))]]
+            else:
+                a, b, _ = toks[r.randrange(len(toks))]
             if b > a:
-                return min(n - 1, a + r.randrange(b - a + 1))
+                m = r.randrange(8)
+                if m < 3:
+                    off = min(b - a, r.randrange(4))
+                elif m < 5:
+                    off = max(0, b - a - r.randrange(3))
+                else:
+                    off = r.randrange(b - a + 1)
+                return min(n - 1, a + off)
         return r.randrange(n)
 
     return s.choice(n, gen)
 
 
-def apply_fault(s: Stream, text: str, toks: list[tuple[int, int, str]], corpus: Corpus, wl: int, st: Counter[str], enabled: list[int]) -> tuple[str, str]:
+def apply_fault(s: Stream, text: str, toks: list[tuple[int, int, str]], corpus: Corpus, wl: int, st: Counter[str], enabled: list[int], groups: list[list[int]] | None = None) -> tuple[str, str]:
     kind = FAULT_KINDS[s.weighted(enabled)]
     n = len(text)
     desc = kind
+    if kind in ("tokrepl", "tokdel", "tokdup") and not toks:
+        kind = "flip"
     if kind == "eof":
-        k = _pos(s, text, toks)
+        k = _pos(s, text, toks, groups=groups)
         text = text[:k]
         desc = f"eof@{k}"
     elif kind == "drop":
-        k = _pos(s, text, toks, allow_end=False)
+        k = _pos(s, text, toks, allow_end=False, groups=groups)
         ln = 1 + (s.choice(4) if s.flag(1, 4) else 0)
         text = text[:k] + text[k + ln :]
         desc = f"drop@{k}+{ln}"
     elif kind == "flip":
-        k = _pos(s, text, toks, allow_end=False)
+        k = _pos(s, text, toks, allow_end=False, groups=groups)
         c = FLIP_ALPHABET[s.choice(len(FLIP_ALPHABET))]
         text = text[:k] + c + text[k + 1 :]
         desc = f"flip@{k}->{c!r}"
     elif kind == "insert":
-        k = _pos(s, text, toks)
+        k = _pos(s, text, toks, groups=groups)
         c = FLIP_ALPHABET[s.choice(len(FLIP_ALPHABET))]
         text = text[:k] + c + text[k:]
         desc = f"insert@{k}<-{c!r}"
     elif kind == "dup":
-        p = _pos(s, text, toks, allow_end=False)
+        p = _pos(s, text, toks, allow_end=False, groups=groups)
         ln = 1 + s.choice(min(64, max(1, n - p)))
         reps = 1 + (s.choice(6) if s.flag(1, 6) else 0)
         text = text[: p + ln] + text[p : p + ln] * reps + text[p + ln :]
         desc = f"dup[{p},{p + ln})x{reps}"
     elif kind == "swap":
-        p = _pos(s, text, toks, allow_end=False)
+        p = _pos(s, text, toks, allow_end=False, groups=groups)
         l1 = 1 + s.choice(min(32, max(1, n - p)))
         l2 = 1 + s.choice(min(32, max(1, n - p - l1 + 1)))
         a, b = text[p : p + l1], text[p + l1 : p + l1 + l2]
@@ -366,24 +402,49 @@ def apply_fault(s: Stream, text: str, toks: list[tuple[int, int, str]], corpus: 
         desc = f"torn@{sector}"
     elif kind == "splice":
         other = corpus.text(wl, s.choice(len(corpus.w1)))
-        k = _pos(s, text, toks)
+        k = _pos(s, text, toks, groups=groups)
         q = s.choice(max(1, len(other)))
         ln = 1 + s.choice(80)
         text = text[:k] + other[q : q + ln] + text[k:]
         desc = f"splice@{k}+{ln}"
     elif kind == "stutter":
         # a short span re-delivered many times (stuck write)
-        p = _pos(s, text, toks, allow_end=False)
+        p = _pos(s, text, toks, allow_end=False, groups=groups)
         ln = 1 + s.choice(4)
         reps = (2, 8, 40, 300, 1200, 5000)[s.weighted((3, 3, 3, 2, 2, 1))]
         text = text[: p + ln] + text[p : p + ln] * reps + text[p + ln :]
         desc = f"stutter[{p},{p + ln})x{reps}"
+    elif kind in ("tokrepl", "tokdel", "tokdup"):
+        # token-level damage: a grammar token replaced by another corpus token, lost, or doubled
+        if groups and s.flag(2, 3):
+            g = groups[s.choice(len(groups))]
+            a, b, tk = toks[g[s.choice(len(g))]]
+        else:
+            a, b, tk = toks[s.choice(len(toks))]
+        if kind == "tokdel":
+            text = text[:a] + text[b:]
+            desc = f"tokdel[{a},{b}) {tk}"
+        elif kind == "tokdup":
+            text = text[:b] + " " + text[a:b] + text[b:]
+            desc = f"tokdup[{a},{b}) {tk}"
+        else:
+            oi = s.choice(len(corpus.w1))
+            otoks = corpus.tokens(wl, oi)
+            ogroups = corpus.by_kind(wl, oi)
+            if otoks:
+                og = ogroups[s.choice(len(ogroups))]
+                oa, ob, ok = otoks[og[s.choice(len(og))]]
+                rep = corpus.text(wl, oi)[oa:ob]
+            else:
+                rep, ok = "0", "?"
+            text = text[:a] + rep + text[b:]
+            desc = f"tokrepl[{a},{b}) {tk} <- {ok} {rep[:24]!r}"
     elif kind == "crlf":
         text = text.replace("\n", "\r\n")
     elif kind == "bom":
         text = "﻿" + text
     elif kind == "utf8cut":
-        k = _pos(s, text, toks, allow_end=False)
+        k = _pos(s, text, toks, allow_end=False, groups=groups)
         c = "中é"[s.choice(2)]
         raw = (text[:k] + c).encode("utf-8")[:-1]
         text = raw.decode("utf-8", errors="replace")
@@ -414,19 +475,27 @@ _JUDGE: Judge | None = None
 _CONFIRMED: Counter[Any] = Counter()
 
 
-def _enum_task(args: tuple[int, int, int, int]) -> tuple[Counter[str], list[tuple[int, dict[str, Any], Violation]], int, int]:
-    """Enumerated single faults for one chunk: eof@k and drop@k, k = first, first+step, ..."""
-    ci, first, step, _ = args
+def _enum_task(args: tuple[int, int, int, list[tuple[int, int, int]] | None]) -> tuple[Counter[str], list[tuple[int, dict[str, Any], Violation]], int, int]:
+    """Enumerated single faults.  Either one chunk (eof@k and drop@k for k = first,
+    first+step, ...) or an explicit list of (mode, chunk, offset)."""
+    import faulthandler
+
+    ci, first, step, explicit = args
     eng = _ENG
     assert eng is not None and _CORPUS is not None
     st: Counter[str] = Counter()
     viols: list[tuple[int, dict[str, Any], Violation]] = []
-    n = len(_CORPUS.w1[ci])
     done = 0
     maxev = 0
-    for mode in (1, 2):
-        for k in range(first, n + (1 if mode == 1 else 0), step):
-            rec = {"cfg": [[mode, ci, k]]}
+    if explicit is not None:
+        todo = explicit
+    else:
+        n = len(_CORPUS.w1[ci])
+        todo = [(mode, ci, k) for mode in (1, 2) for k in range(first, n + (1 if mode == 1 else 0), step)]
+    try:
+        for mode, c, k in todo:
+            faulthandler.dump_traceback_later(900, exit=True)
+            rec = {"cfg": [[mode, c, k]]}
             ch = Chooser(record=rec)
             r = eng.run(ch, False)
             merge_stats(st, r.stats)
@@ -436,9 +505,38 @@ def _enum_task(args: tuple[int, int, int, int]) -> tuple[Counter[str], list[tupl
                 if len(viols) < 20:
                     viols.append((-1, rec, v))
             if sum(1 for _, _, v in viols if v.oracle.startswith("T-")) >= 6:
-                st["enum.chunk_cut_short_after_repeated_timeouts"] += 1
-                return st, viols, done, maxev
+                st["enum.task_cut_short_after_repeated_timeouts"] += 1
+                break
+    finally:
+        faulthandler.cancel_dump_traceback_later()
     return st, viols, done, maxev
+
+
+def _strata(corpus: Corpus, seed: int) -> list[tuple[int, int, int]]:
+    """Stratified single faults for the quick tier: every distinct (kind of the token
+    that is cut, how far into the token, kinds of the previous and next token) gets one
+    representative (chunk, offset), rotated by the seed; eof@k and drop@k at each."""
+    strata: dict[tuple[Any, ...], list[tuple[int, int]]] = {}
+    for ci, text in enumerate(corpus.w1):
+        if len(text) > ENUM_MAX_LEN:
+            continue
+        prev = "START"
+        toks = corpus.tokens(0, ci)
+        for ti, (a, b, kind) in enumerate(toks):
+            nxt = toks[ti + 1][2] if ti + 1 < len(toks) else "END"
+            ln = b - a
+            for off in sorted({0, 1, 2, 3, ln - 1, ln}):
+                if 0 <= off <= ln:
+                    where: Any = off if off <= 3 else ("end", ln - off)
+                    strata.setdefault((kind, where, prev, nxt), []).append((ci, a + off))
+            prev = kind
+    out: list[tuple[int, int, int]] = []
+    for key in sorted(strata, key=repr):
+        cands = strata[key]
+        ci, k = cands[zlib.crc32(f"{seed}:{key!r}".encode()) % len(cands)]
+        out.append((1, ci, k))
+        out.append((2, ci, k))
+    return out
 
 
 _ENG: "StreamEngine | None" = None
@@ -462,7 +560,7 @@ class StreamEngine(Engine):
         global _CORPUS, _JUDGE, _ENG
         try:
             soft, hard = resource.getrlimit(resource.RLIMIT_AS)
-            lim = 6 << 30
+            lim = 5 << 29  # 2.5 GB per process: 16 workers fit in memory, a damaged shape digit gives MemoryError
             if hard == resource.RLIM_INFINITY or hard > lim:
                 resource.setrlimit(resource.RLIMIT_AS, (lim, hard))
         except (ValueError, OSError):
@@ -526,9 +624,10 @@ class StreamEngine(Engine):
             nf = 1 + cfg.weighted((5, 3, 2))
             damaged = text
             descs = []
+            groups = corpus.by_kind(wl, ci) if toks else None
             for _ in fs.iter_steps(nf):
-                dtoks = toks if damaged is text else []
-                damaged, d = apply_fault(fs, damaged, dtoks, corpus, wl, st, enabled)
+                intact = damaged is text
+                damaged, d = apply_fault(fs, damaged, toks if intact else [], corpus, wl, st, enabled, groups if intact else None)
                 descs.append(d)
         if tr is not None:
             tr.append(f"file {corpus.names[ci]} workload {('W3-token-sequence' if w3 else 'W1-core-generic') if wl == 0 else 'W2-full-custom'} len {len(text)} faults {descs} -> len {len(damaged)} crc {zlib.crc32(damaged.encode('utf-8', 'replace')):08x}")
@@ -583,9 +682,14 @@ class StreamEngine(Engine):
         step = ENUM_SLICES if tier == "quick" else 1
         first = seed % ENUM_SLICES if tier == "quick" else 0
         cap = float(os.environ.get("VERIF_ENUM_WALL_S", "0") or 0) or (200 if tier == "quick" else 2400)
-        tasks = [(ci, first, step, 0) for ci, t in enumerate(corpus.w1) if len(t) <= ENUM_MAX_LEN]
+        tasks: list[tuple[int, int, int, Any]] = [(ci, first, step, None) for ci, t in enumerate(corpus.w1) if len(t) <= ENUM_MAX_LEN]
         # big chunks first: better load balance
         tasks.sort(key=lambda t: -len(corpus.w1[t[0]]))
+        n_chunk_tasks = len(tasks)
+        strat: list[tuple[int, int, int]] = []
+        if tier == "quick":
+            strat = _strata(corpus, seed)
+            tasks = [(-1, 0, 0, strat[i : i + 150]) for i in range(0, len(strat), 150)] + tasks
         st: Counter[str] = Counter()
         viols: list[tuple[int, dict[str, Any], Violation]] = []
         done = 0
@@ -620,7 +724,8 @@ class StreamEngine(Engine):
                 "kinds": ["eof@k (truncation / short read at offset k)", "drop@k (one lost byte at offset k)"],
                 "chunks_total": len(corpus.w1),
                 "chunks_enumerated": chunks_done,
-                "chunks_too_large_sampled_only": len(corpus.w1) - len(tasks),
+                "chunks_too_large_sampled_only": len(corpus.w1) - n_chunk_tasks,
+                "stratified_inputs (one eof + one drop per distinct (cut token kind, offset into token, previous and next token kind))": len(strat),
                 "offset_slice": f"k = {first} mod {step}" if step > 1 else "every offset",
                 "inputs": done,
                 "complete_for_slice": not capped,
@@ -635,7 +740,7 @@ class StreamEngine(Engine):
         return (
             "one case = one corpus chunk (generic-form/builtin-only 'W1' or original/all-dialects 'W2') damaged by a fault "
             "sequence, parsed and verified once under the step clock and the CPU watchdog; enumerated tier: every "
-            "(chunk, eof@k) and (chunk, drop@k) of the selected offset slice; sampled tier: 1-3 faults of 12 kinds; "
+            "(chunk, eof@k) and (chunk, drop@k) of the selected offset slice; sampled tier: 1-3 faults of 15 kinds; "
             "non-trivial = the damaged text differs from the stored text; distinct = distinct damaged texts (crc+length)"
         )
 
